@@ -6,6 +6,8 @@ import os
 # /repo has all three.  VERIF_C06_FIXES overrides it (e.g. to check a worktree in which one of them is reverted
 # against the model of that tree).
 _FIXES = os.environ.get("VERIF_C06_FIXES", "all_fix")
+# fixes/C06-F6.diff (the processor refuses rule sets with a duplicate rule id): "true" once it is in the tree under test
+_F6 = os.environ.get("VERIF_C06_F6", "false")
 
 P = {
     "id": "C06",
@@ -20,11 +22,14 @@ P = {
                  "C06_repaired_examples", "C06_nonvacuous",
                  "C06_tree_add_refines", "C06_tree_delete_refines", "C06_radix_delete_refines_machine",
                  "C06_tree_invariant", "C06_tree_refines_index", "C06_tree_history_equals_fresh",
-                 "C06_tree_captures_equal_fresh", "C06_tree_never_panics", "C06_tree_prune_merge_example"],
+                 "C06_tree_captures_equal_fresh", "C06_tree_never_panics", "C06_tree_prune_merge_example",
+                 "C06_F6_repaired_history_equals_fresh", "C06_F6_repaired_rejected_iff_cannot_apply",
+                 "C06_F6_repaired_deleted_never_match", "C06_F6_repaired_current_rules_indexed",
+                 "C06_F6_repaired_tree_history_equals_fresh", "C06_F6_repaired_example"],
     "streams": [{
         "name": "history", "pkg": "./internal/rules", "test": "TestVerifC06",
         "overlay": {"internal/rules/zz_verif_c06_test.go": "c06/c06_test.go"},
-        "eval_module": "Run.Eval_C06", "check_term": "check false (%s)" % _FIXES,
+        "eval_module": "Run.Eval_C06", "check_term": "check false (%s) %s" % (_FIXES, _F6),
         "n_quick": 1200, "n_thorough": 24000, "shard": 40,
         "findings": {1: "C06-F1", 2: "C06-F2", 3: "C06-F3", 4: "C06-F4", 5: "C06-F5", 6: "C06-F6"},
     }],
